@@ -1999,6 +1999,14 @@ process(PseudoTcpSocket *self, Segment *seg)
   if (!priv->support_fin_ack)
     bIgnoreData |= (priv->shutdown != SD_NONE);
 
+  /* Until the peer's connect message has been received, rcv_nxt is not
+   * synchronised with the peer's sequence numbers: data that overtook the
+   * connect message cannot be placed in the receive buffer yet. Drop it, it
+   * will be retransmitted. */
+  if (!(seg->flags & FLAG_CTL) &&
+      (priv->state == PSEUDO_TCP_LISTEN || priv->state == PSEUDO_TCP_SYN_SENT))
+    seg->len = 0;
+
   bNewData = FALSE;
 
   if (seg->len > 0) {
